@@ -194,7 +194,7 @@ def unit_extremes_large(ctx, channel, alphabet, p, chunks):
 
 def units(tier, seed):
     T = tier == "thorough"
-    N = 32_000_000 if T else 4_000_000
+    N = 16_000_000 if T else 4_000_000  # 16 workers x ~0.7 GB; 32M symbols per unit exhausted memory when other jobs ran alongside
     us = [Unit(f"exact_{c}", "c12:unit_exact", {"channel": c}, 2) for c in ("bsc", "z", "bec")]
     us += [Unit(f"reuse_{c}", "c12:unit_reuse", {"channel": c}, 2) for c in ("bsc", "z", "bec")]
     for c in ("bsc", "z", "bec"):
